@@ -13,7 +13,20 @@ import (
 	"github.com/hashicorp/hcl/v2/hclwrite"
 	"github.com/zclconf/go-cty/cty"
 	"github.com/zclconf/go-cty/cty/convert"
+	"golang.org/x/text/unicode/norm"
 )
+
+// nfcAll is the model's view of labels given to the API: HCL strings are
+// Unicode-normalised (NFC) wherever they are read, so a label handed over in
+// another form is predicted to read back normalised, from the accessors and
+// from the saved file alike.
+func nfcAll(ls []string) []string {
+	out := make([]string, len(ls))
+	for i, l := range ls {
+		out[i] = norm.NFC.String(l)
+	}
+	return out
+}
 
 // ---- reference model: a body is an ordered list of items ----
 
@@ -385,14 +398,14 @@ func (s *sim) applyBodyOp(op *OpM, tb *hclwrite.Body, mb *mBody) {
 		var blk *hclwrite.Block
 		s.call("AppendNewBlock", func() { blk = tb.AppendNewBlock(op.Type, op.Labels) })
 		mb.reflow()
-		m := &mBlock{typ: op.Type, labels: append([]string{}, op.Labels...), body: &mBody{}, parent: mb}
+		m := &mBlock{typ: op.Type, labels: nfcAll(op.Labels), body: &mBody{}, parent: mb}
 		mb.items = append(mb.items, &mItem{block: m})
 		s.handles = append(s.handles, handle{blk, m})
 		s.res.Effective++
 	case "append_fresh_block":
 		var blk *hclwrite.Block
 		s.call("NewBlock", func() { blk = hclwrite.NewBlock(op.Type, op.Labels) })
-		m := &mBlock{typ: op.Type, labels: append([]string{}, op.Labels...), body: &mBody{}}
+		m := &mBlock{typ: op.Type, labels: nfcAll(op.Labels), body: &mBody{}}
 		for i := range op.Pre {
 			var bb *hclwrite.Body
 			s.call("Block.Body", func() { bb = blk.Body() })
@@ -492,11 +505,24 @@ func (s *sim) applyBodyOp(op *OpM, tb *hclwrite.Body, mb *mBody) {
 			mbl[i].typ, mbl[i].hdr = op.Type, nil
 			s.res.Effective++
 		case "set_labels":
-			s.call("SetLabels", func() { tbl[i].SetLabels(op.Labels) })
+			// Keep > 0: the first Keep current labels (as the model has them)
+			// stay, op.Labels follow — relabelling that leaves a prefix alone
+			labels := op.Labels
+			if op.Keep > 0 {
+				k := op.Keep
+				if k > len(mbl[i].labels) {
+					k = len(mbl[i].labels)
+				}
+				labels = append(append([]string{}, mbl[i].labels[:k]...), op.Labels...)
+				if k > 0 {
+					s.probe("set_labels_keeps_prefix")
+				}
+			}
+			s.call("SetLabels", func() { tbl[i].SetLabels(labels) })
 			if mbl[i].hdr == nil {
 				s.probe("repeated_edit_same_item")
 			}
-			mbl[i].labels, mbl[i].hdr = append([]string{}, op.Labels...), nil
+			mbl[i].labels, mbl[i].hdr = nfcAll(labels), nil
 			s.res.Effective++
 		case "hold":
 			s.handles = append(s.handles, handle{tbl[i], mbl[i]})
